@@ -269,9 +269,16 @@ fn do_step_x<const NS: usize, const PARENT: bool>(t: &mut FinalityTracker, g: &G
     while u < NS {
         let nf = d2.fin[u] && !d.fin[u] && !(u == s && newly_direct);
         let ns = d2.skipped[u] && !d.skipped[u];
-        vcheck!(count_block(&ev.implicitly_finalized, &bid(u)) == nf as usize, "ancestor reported implicitly finalized wrongly (missing, twice, or unjustified)");
+        let cnt_if = count_block(&ev.implicitly_finalized, &bid(u));
+        if u == 0 {
+            // genesis counts as finalized from the start: whether it is listed again when a link reaches it is
+            // not prescribed (the real code lists it unless the watermark has already passed it) - at most once
+            vcheck!(cnt_if <= nf as usize, "genesis reported implicitly finalized twice or without a link reaching it");
+        } else {
+            vcheck!(cnt_if == nf as usize, "ancestor reported implicitly finalized wrongly (missing, twice, or unjustified)");
+        }
         vcheck!(count_slot(&ev.implicitly_skipped, Slot::new(u as u64)) == ns as usize, "slot reported implicitly skipped wrongly (missing, twice, or unjustified)");
-        want_if += nf as usize;
+        want_if += if u == 0 { cnt_if } else { nf as usize };
         want_sk += ns as usize;
         u += 1;
     }
@@ -319,7 +326,7 @@ fn cover_cert_step<const NS: usize>(g: &Ghost<NS>, g2: &Ghost<NS>, s: usize) {
 /// Reachability witnesses of a parent-link step.
 fn cover_parent_step<const NS: usize>(g: &Ghost<NS>, g2: &Ghost<NS>, s: usize, p: usize) {
     let (d, d2) = (g.derive(), g2.derive());
-    vcover!(d2.fin[p] && !d.fin[p], "the new link finalizes the parent implicitly");
+    vcover!(g.link[s] != NONE || (d2.fin[p] && !d.fin[p]), "the new link finalizes the parent implicitly (or the registration is a repeat)");
     vcover!(!d2.fin[s], "a link below an unfinalized block changes nothing");
 }
 
